@@ -150,12 +150,18 @@ fn data_nd(shape: &[usize]) -> ArrayD<f64> {
     })
 }
 
+/// queries that hit knots exactly right after a query in the interval left of the knot, repeat
+/// values and are not sorted (the default axes have their knots at 0, 1, 2, ...)
 fn query_nd(shape: &[usize], lo: f64, hi: f64, salt: f64, bad_at: Option<usize>, bad: f64) -> ArrayD<f64> {
-    let mut c = salt;
+    const PAT: [f64; 12] = [0.75, 1.0, 2.5, 2.0, 1.5, 2.0, 0.0, 3.0, 0.25, 1.0, 1.0, 2.9999999999999996];
     let mut i = 0usize;
+    let s = salt as usize;
+    let total: usize = shape.iter().product();
     ArrayD::from_shape_fn(IxDyn(shape), |_| {
-        c += 1.0;
-        let v = if Some(i) == bad_at { bad } else { lo + (c * 0.61) % (hi - lo) };
+        // the first element is a knot and the last one lies in the interval left of that knot: a
+        // second call with the same query starts from whatever the first call left behind
+        let p = if i == 0 { 2.0 } else if i + 1 == total { 1.5 } else { PAT[(i + s) % PAT.len()] };
+        let v = if Some(i) == bad_at { bad } else { p.clamp(lo, hi) };
         i += 1;
         v
     })
